@@ -198,8 +198,10 @@ func runAImpl(c ACase) (o aObs) {
 		}
 		o.Data, o.DErr = o.Msg.Data()
 		o.Tags, _ = o.Msg.Tags()
-		o.Map = o.Msg.ToMapStr()
+		// rendered (copied) before any further call: a later call must not be able to rewrite it through a shared slice
 		o.Out = renderAData(o.Data, o.Tags, o.DErr)
+		o.Tags = append([]string(nil), o.Tags...)
+		o.Map = o.Msg.ToMapStr()
 		// idempotence (C05): second round must give the same answers
 		d2, e2 := o.Msg.Data()
 		t2, _ := o.Msg.Tags()
@@ -501,6 +503,9 @@ func genC12(rng *rand.Rand) ACase {
 	case 5: // EXECVE
 		typ = 1309
 		n := rng.Intn(6)
+		if rng.Intn(8) == 0 {
+			n = []int{9, 10, 11, 12, 20, 101}[rng.Intn(6)] // two- and three-digit argument indices
+		}
 		add("argc", strconv.Itoa(n))
 		exp["argc"] = strconv.Itoa(n)
 		for i := 0; i < n; i++ {
@@ -512,6 +517,12 @@ func genC12(rng *rand.Rand) ACase {
 		case 0:
 			ip := net.IPv4(byte(rng.Intn(256)), byte(rng.Intn(256)), byte(rng.Intn(256)), byte(rng.Intn(256))).To4()
 			port := rng.Intn(65536)
+			if rng.Intn(4) == 0 {
+				port = []int{0, 1, 255, 256, 32767, 32768, 65535}[rng.Intn(7)]
+			}
+			if rng.Intn(4) == 0 {
+				port = []int{0, 1, 255, 256, 32767, 32768, 65535}[rng.Intn(7)]
+			}
 			add("saddr", "0200"+be16(port)+hexUp(ip)+"0000000000000000")
 			exp["family"], exp["addr"], exp["port"] = "ipv4", ip.String(), strconv.Itoa(port)
 		case 1:
@@ -539,6 +550,9 @@ func genC12(rng *rand.Rand) ACase {
 				}
 			}
 			port := rng.Intn(65536)
+			if rng.Intn(4) == 0 {
+				port = []int{0, 1, 255, 256, 32767, 32768, 65535}[rng.Intn(7)]
+			}
 			flow := uint32(0)
 			if rng.Intn(3) == 0 {
 				flow = uint32(rng.Int31())
@@ -1156,6 +1170,7 @@ func auparseFamily(ctx *Ctx) error {
 			step = 37
 		}
 		fixed := []string{"audit(1.000:1): arch=c000003e syscall=59 success=yes exit=0 a0=1 exe=\"/bin/x\" key=(null) saddr=02000016C0A80001 argc=2 a0=\"ls\" a1=2D6C sig=31 proctitle=6C73002D6C cmd=6C73 data=6C73 name=\"/x\" acct=\"root\" subj=a:b:c:d:e:f:g obj=u:r:t:s0 auid=4294967295 res=success",
+			"audit(1.000:1): arch=c000003e syscall=2 success=no exit=-13 a0=1 key=65786563013634626974 saddr=0100 argc=1 a0=00",
 			"audit(1.000:1): avc:  denied  { read write } for  pid=1 comm=\"x\" old auid=1 new auid=2 (hostname=h, addr=1.2.3.4, terminal=ssh res=success)'"}
 		for t := 0; t < 65536 && res.NumViolations() < 5; t += step {
 			for _, f := range fixed {
